@@ -143,13 +143,39 @@ def credit_fn(attempt):
 
 COMPLEX = 1 + 2j
 NAN = float('nan')       # not a member of any interval: every range-checked option must refuse it
+INF = float('inf')
+ABOVE_ONE = 1.0000000000000002      # the float next to 1
+BELOW_ONE = 0.9999999999999999      # the float before 1
+TINY = 5e-324                       # the smallest positive float
 
 
 def L(fn, label):
     return Lazy(fn, label)
 
 
+# plugins.md: "You can define custom grading classes in your plugin": an author's class built on a library class
+# is accepted wherever the library class is
+class AuthorStringGrader(m.StringGrader):
+    pass
+
+
+class AuthorFormulaGrader(m.FormulaGrader):
+    pass
+
+
+class AuthorSingleListGrader(m.SingleListGrader):
+    pass
+
+
+class AuthorListGrader(m.ListGrader):
+    pass
+
+
 SG = L(lambda: m.StringGrader(), 'StringGrader()')
+ASG = L(lambda: AuthorStringGrader(), 'AuthorStringGrader()')
+ASLG_semi = L(lambda: AuthorSingleListGrader(subgrader=m.StringGrader(), delimiter=';'),
+              "AuthorSingleListGrader(subgrader=StringGrader(), delimiter=';')")
+AFGab = L(lambda: AuthorFormulaGrader(variables=['a', 'b']), "AuthorFormulaGrader(variables=['a','b'])")
 FG = L(lambda: m.FormulaGrader(), 'FormulaGrader()')
 FGab = L(lambda: m.FormulaGrader(variables=['a', 'b']), "FormulaGrader(variables=['a','b'])")
 NG = L(lambda: m.NumericalGrader(), 'NumericalGrader()')
@@ -223,7 +249,8 @@ def common_opts():
         BOOL('suppress_warnings', False),
         Opt('attempt_based_credit', None,
             [I(None), I(L(lambda: m.ReciprocalCredit(), 'ReciprocalCredit()')),
-             I(L(lambda: m.LinearCredit(), 'LinearCredit()')), I(credit_fn, label='credit_fn')],
+             I(L(lambda: m.LinearCredit(), 'LinearCredit()')), I(credit_fn, label='credit_fn'),
+             I(L(lambda: m.GeometricCredit(factor=0.5), 'GeometricCredit(factor=0.5)'))],
             [O(5), O('abc'), O([1], 'wrong-container')]),
         BOOL('attempt_based_credit_msg', True),
     ]
@@ -234,9 +261,19 @@ def string_answers_opt():
         I('cat', ANSWERS), I({'expect': 'cat'}, ANSWERS), I(('cat', 'dog'), ANSWERS),
         I({'expect': ('a', 'b'), 'grade_decimal': 0.5, 'msg': 'hi'}, ANSWERS), I((), ANSWERS),
         I({'expect': 'zebra', 'grade_decimal': 0, 'msg': 'no'}, ANSWERS),
+        # within rounding distance of the ends of [0, 1]
+        I({'expect': 'a', 'grade_decimal': TINY}, ANSWERS), I({'expect': 'a', 'grade_decimal': BELOW_ONE}, ANSWERS),
+        I({'expect': 'a', 'grade_decimal': -0.0}, ANSWERS), I({'expect': 'a', 'grade_decimal': 1.0, 'ok': 'partial'}, ANSWERS),
     ], [
+        O({'expect': 'a', 'grade_decimal': ABOVE_ONE}, 'out-of-range'),
+        O({'expect': 'a', 'grade_decimal': -TINY}, 'out-of-range'),
+        O({'expect': 'a', 'grade_decimal': INF}, 'out-of-range'),
+        O({'expect': 'a', 'grade_decimal': -INF}, 'out-of-range'),
+        O({'expect': 'a', 'grade_decimal': 2}, 'out-of-range', label="{'expect': 'a', 'grade_decimal': 2 (int)}"),
+        O({'expect': 'a', 'grade_decimal': -1}, 'out-of-range'),
+        O({'expect': ('a', 5)}, 'wrong-element-type'),
         O(5), O(['cat'], 'wrong-container'), O({'grade_decimal': 1}, 'required-missing'),
-        O({'expect': 'a', 'grade_decimal': 2}, 'out-of-range'),
+        O({'expect': 'a', 'grade_decimal': 1.5}, 'out-of-range'),
         O({'expect': 'a', 'grade_decimal': -0.5}, 'out-of-range'),
         O({'expect': 'a', 'grade_decimal': 'x'}, 'wrong-type'),
         O({'expect': 'a', 'grade_decimal': COMPLEX}, 'complex'),
@@ -272,9 +309,11 @@ def tolerance_opt(default):
     dflt = percent_check(float(default[:-1])) if isinstance(default, str) else SAME
     return Opt('tolerance', default,
                [I(0), I(0.1), I(5), I('0%', percent_check(0.0)), I('1%', percent_check(1.0)), I('0.01%', percent_check(0.01)),
-                I('2.5%', percent_check(2.5))],
+                I('2.5%', percent_check(2.5)), I(1e-300), I(0.0), I('100%', percent_check(100.0)), I('250%', percent_check(250.0))],
                [O(-1, 'out-of-range'), O(-0.5, 'out-of-range'), O('-1%', 'out-of-range'), O('abc', 'malformed'),
-                O('5', 'malformed'), O(None, 'none'), O([0.1], 'wrong-container'), O(COMPLEX, 'complex'), O(NAN, 'out-of-range', label='nan')],
+                O('5', 'malformed'), O(None, 'none'), O([0.1], 'wrong-container'), O(COMPLEX, 'complex'), O(NAN, 'out-of-range', label='nan'),
+                O(-1e-300, 'out-of-range'), O(-INF, 'out-of-range'), O('-0.01%', 'out-of-range'), O('%', 'malformed'),
+                O('5%%', 'malformed'), O('', 'malformed'), O('five%', 'malformed'), O('%5', 'malformed')],
                default_cfg=dflt, kind='bounded-number')
 
 
@@ -300,7 +339,14 @@ def formula_answers_opt():
         I({'comparer': cmp3, 'comparer_params': ['x', '2']}, ANSWERS, label='comparer-dict'),
         I({'expect': {'comparer': cmp3, 'comparer_params': ['x']}, 'msg': 'm'}, ANSWERS, label='expect=comparer-dict'),
         I({'expect': ('x', 'x+0')}, ANSWERS), I((), ANSWERS),
+        # comparer_functions.md: a comparer may be a callable object such as LinearComparer()
+        I(L(lambda: {'comparer': LinearComparer(), 'comparer_params': ['x']}, 'LinearComparer-dict'), ANSWERS),
+        I({'expect': 'x', 'grade_decimal': BELOW_ONE}, ANSWERS), I({'expect': 'x', 'grade_decimal': TINY}, ANSWERS),
     ], [
+        O({'comparer': cmp3, 'comparer_params': ['x'], 'foo': 1}, 'unknown-key', label='comparer-dict-extra-key'),
+        O({'comparer_params': ['x']}, 'required-missing', label='params-without-comparer'),
+        O({'comparer': cmp3, 'comparer_params': ('x',)}, 'wrong-container', label='params-a-tuple'),
+        O({'expect': 'x', 'grade_decimal': ABOVE_ONE}, 'out-of-range'), O({'expect': 'x', 'grade_decimal': -TINY}, 'out-of-range'),
         O(5), O(['x'], 'wrong-container'), O({'comparer': cmp3}, 'required-missing', label='comparer-without-params'),
         O({'comparer': f1, 'comparer_params': ['x']}, 'wrong-arity', label='comparer-with-1-arg'),
         O({'comparer': 5, 'comparer_params': ['x']}, 'wrong-type'),
@@ -319,16 +365,23 @@ def math_opts(tolerance, samples, numerical=False):
             ([] if numerical else [
                 I({'f': [f1, f2]}, Check(lambda s, c: M.deep_eq(s, {'f': m.SpecificFunctions([f1, f2])}),
                                          "{'f': SpecificFunctions([f1, f2])}"), label="{'f': [f1, f2]}"),
-                I(L(lambda: {'f': m.RandomFunction()}, "{'f': RandomFunction()}"))]),
+                I(L(lambda: {'f': m.RandomFunction()}, "{'f': RandomFunction()}")),
+                I(L(lambda: {'f': m.SpecificFunctions([f1, f2])}, "{'f': SpecificFunctions([f1, f2])}")),
+                I(L(lambda: {'f': m.SpecificFunctions(f1), 'g': f2}, "{'f': SpecificFunctions(f1), 'g': f2}"))]),
             [O({'f': 5}, 'wrong-element-type'), O({'f': 'sin'}, 'wrong-element-type'),
              O({1: f1}, 'wrong-key-type', label='{1: f1}'), O({'f': []}, 'wrong-length'),
              O([f1], 'wrong-container', label='[f1]'), O('f'), O(None, 'none')] +
             ([O(L(lambda: {'f': m.RandomFunction()}, "{'f': RandomFunction()}"), 'random-function-in-numerical'),
-              O({'f': [f1, f2]}, 'random-function-in-numerical', label="{'f': [f1, f2]}")] if numerical else [])),
+              O({'f': [f1, f2]}, 'random-function-in-numerical', label="{'f': [f1, f2]}"),
+              O(L(lambda: {'f': m.SpecificFunctions([f1, f2])}, "{'f': SpecificFunctions([f1, f2])}"),
+                'random-function-in-numerical')] if numerical else [])),
         Opt('user_constants', {},
-            [I({}), I({'c': 3e10}), I({'c': 2 + 1j, 'd': -1}), I({'pi': None}, Check(lambda s, c: s in ({}, {'pi': None}), "{} or {'pi': None}"))],
+            [I({}), I({'c': 3e10}), I({'c': 2 + 1j, 'd': -1}), I({'pi': None}, Check(lambda s, c: s in ({}, {'pi': None}), "{} or {'pi': None}")),
+             # matrix_grader.md: constants may be arrays; falsy numbers are numbers
+             I(L(lambda: {'A': m.MathArray([[1, 2, 3], [4, 5, 6]])}, "{'A': MathArray(2x3)}")), I({'z': 0, 'w': 0.0})],
             [O({'c': 'a'}, 'wrong-element-type'), O({1: 2}, 'wrong-key-type'), O([1], 'wrong-container'), O('c'),
-             O({'c': [1, 2]}, 'wrong-element-type'), O(None, 'none')]),
+             O({'c': [1, 2]}, 'wrong-element-type'), O(None, 'none'), O({'c': (1, 2)}, 'wrong-element-type'),
+             O({'': 'a'}, 'wrong-element-type')]),
         LIST_STR('blacklist', [], ins=[I([]), I(['sin']), I(['sin', 'cos'])]),
         Opt('whitelist', [], [I([]), I(['sin']), I(['sin', 'cos']), I([None])],
             [O('sin', 'wrong-container'), O([1], 'wrong-element-type'), O([None, 'sin'], 'wrong-length'),
@@ -406,9 +459,11 @@ def matrix_spec():
              I({'is_raised': False, 'msg_detail': None}), I({}, {'is_raised': True, 'msg_detail': 'type'})],
             [O({'is_raised': 1}, 'int-for-bool'), O({'msg_detail': 'foo'}, 'bad-literal'), O({'foo': 1}, 'unknown-key'),
              O('type', 'wrong-container'), O(None, 'none')]),
-        Opt('entry_partial_credit', NODEF, [I('proportional'), I(0.5), I(0), I(1)],
+        Opt('entry_partial_credit', NODEF, [I('proportional'), I(0.5), I(0), I(1), I(BELOW_ONE), I(TINY), I(1.0), I(0.0)],
             [O('partial', 'bad-literal'), O(1.5, 'out-of-range'), O(-0.1, 'out-of-range'), O([0.5], 'wrong-container'),
-             O(None, 'none')], present=False),
+             O(None, 'none'), O(2, 'out-of-range'), O(-1, 'out-of-range'), O(ABOVE_ONE, 'out-of-range'),
+             O(-TINY, 'out-of-range'), O(NAN, 'out-of-range', label='nan'), O('Proportional', 'bad-literal')],
+            present=False, kind='bounded-number'),
         Opt('entry_partial_msg', NODEF, [I('some entries are wrong'), I('')], [O(5), O(None, 'none')], present=False),
         # docs: "The FormulaGrader configuration keys that MatrixGrader does not have are: allow_inf"
         Opt('allow_inf', NODEF, [], [O(True, 'option-not-available')], present=False),
@@ -441,7 +496,7 @@ def singlelist_spec():
         BOOL('ordered', False), BOOL('length_error', False), BOOL('missing_error', True),
         Opt('delimiter', ',', [I(','), I(';'), I('|'), I(', ')], [O(5), O(None, 'none'), O([','], 'wrong-container')]),
         BOOL('partial_credit', True),
-        Opt('subgrader', REQUIRED, [I(SG), I(FG), I(NG), I(SLG_semi)],
+        Opt('subgrader', REQUIRED, [I(SG), I(FG), I(NG), I(SLG_semi), I(ASG), I(ASLG_semi)],
             [O(LG_str, 'not-an-ItemGrader'), O('StringGrader'), O(None, 'none'), O(5),
              O(L(lambda: m.StringGrader, 'the class StringGrader'), 'class-not-instance'),
              O(L(lambda: [m.StringGrader()], '[StringGrader()]'), 'wrong-container')]),
@@ -466,7 +521,8 @@ def list_spec():
         ], default_cfg=()),
         BOOL('ordered', False), BOOL('partial_credit', True),
         Opt('subgraders', REQUIRED,
-            [I(SG), I(FG), I(SLG_comma), I(L(lambda: [m.StringGrader(), m.StringGrader()], '[SG, SG]')),
+            [I(SG), I(FG), I(SLG_comma), I(ASG), I(L(lambda: AuthorListGrader(subgraders=m.StringGrader()), 'AuthorListGrader(SG)')),
+             I(L(lambda: [m.StringGrader(), m.StringGrader()], '[SG, SG]')),
              I(L(lambda: [m.StringGrader(), m.FormulaGrader()], '[SG, FG]')),
              I(L(lambda: [m.StringGrader(), m.StringGrader(), m.StringGrader()], '[SG, SG, SG]'))],
             [O('StringGrader'), O(None, 'none'), O(5), O(L(lambda: (m.StringGrader(),), '(SG,)'), 'wrong-container'),
@@ -498,7 +554,7 @@ def interval_spec():
                                                                   O(None, 'none')]),
         Opt('delimiter', ',', [I(','), I(':'), I(';')], [O(5), O([','], 'wrong-container')]),
         BOOL('partial_credit', True),
-        Opt('subgrader', IG_dflt_sub, [I(FGab), I(NG), I(L(lambda: m.MatrixGrader(), 'MatrixGrader()'))],
+        Opt('subgrader', IG_dflt_sub, [I(FGab), I(NG), I(L(lambda: m.MatrixGrader(), 'MatrixGrader()')), I(AFGab)],
             [O(SG, 'not-a-FormulaGrader'), O('x'), O(5), O(SLG_comma, 'not-a-FormulaGrader')]),
     ]
     return Spec('IntervalGrader', m.IntervalGrader, {}, opts, 'grader',
@@ -546,8 +602,9 @@ def integral_spec():
 
 def sum_spec():
     extra = [
-        Opt('infty_val', 1000, [I(1000), I(50)], [O(0, 'out-of-range'), O(-5, 'out-of-range'), O('a'), O(None, 'none'),
-                                                  O(COMPLEX, 'complex'), O(NAN, 'out-of-range', label='nan')], kind='bounded-number'),
+        Opt('infty_val', 1000, [I(1000), I(50), I(1)], [O(0, 'out-of-range'), O(-5, 'out-of-range'), O('a'), O(None, 'none'),
+                                                        O(COMPLEX, 'complex'), O(NAN, 'out-of-range', label='nan'),
+                                                        O(0.0, 'out-of-range'), O(-INF, 'out-of-range')], kind='bounded-number'),
         Opt('infty_val_fact', 80, [I(80), I(20)], [O(0, 'out-of-range'), O(-5, 'out-of-range'), O('a'), O(None, 'none')]),
         ENUM('even_odd', 0, [0, 1, 2], [3, -1, 'a', 1.5, None]),
     ]
@@ -596,8 +653,10 @@ def random_function_spec():
     return Spec('RandomFunction', m.RandomFunction, {}, [
         POSINT('input_dim', 1), POSINT('output_dim', 1), POSINT('num_terms', 3),
         Opt('center', 0, [I(0), I(1), I(-2.5)], [O('a'), O(None, 'none'), O([1], 'wrong-container')]),
-        Opt('amplitude', 10, [I(1), I(0.5), I(10)], [O(0, 'out-of-range'), O(-1, 'out-of-range'), O('a'), O(None, 'none'),
-                                                    O(COMPLEX, 'complex'), O(NAN, 'out-of-range', label='nan')], kind='bounded-number'),
+        Opt('amplitude', 10, [I(1), I(0.5), I(10), I(1e-300), I(TINY)],
+            [O(0, 'out-of-range'), O(-1, 'out-of-range'), O('a'), O(None, 'none'),
+             O(COMPLEX, 'complex'), O(NAN, 'out-of-range', label='nan'), O(0.0, 'out-of-range'), O(-0.0, 'out-of-range'),
+             O(-1e-300, 'out-of-range'), O(-INF, 'out-of-range')], kind='bounded-number'),
         BOOL('complex', False),
     ], 'sampler')
 
@@ -695,9 +754,10 @@ def equality_comparer_spec():
 def entry_comparer_spec():
     return Spec('MatrixEntryComparer', MatrixEntryComparer, {}, [
         transform_opt(),
-        Opt('entry_partial_credit', 0, [I('proportional'), I(0.5), I(0), I(1)],
+        Opt('entry_partial_credit', 0, [I('proportional'), I(0.5), I(0), I(1), I(BELOW_ONE), I(TINY), I(1.0), I(0.0)],
             [O('partial', 'bad-literal'), O(1.5, 'out-of-range'), O(-0.5, 'out-of-range'), O([1], 'wrong-container'),
-             O(None, 'none')]),
+             O(None, 'none'), O(2, 'out-of-range'), O(-1, 'out-of-range'), O(ABOVE_ONE, 'out-of-range'),
+             O(-TINY, 'out-of-range'), O(NAN, 'out-of-range', label='nan')], kind='bounded-number'),
         Opt('entry_partial_msg', 'Some array entries are incorrect, marked below:\n{error_locations}',
             [I(''), I('wrong: {error_locations}')], [O(5), O(None, 'none')]),
     ], 'comparer')
@@ -705,8 +765,10 @@ def entry_comparer_spec():
 
 def linear_comparer_spec():
     def credit(name, default):
-        return Opt(name, default, [I(None), I(0), I(0.5), I(1)],
-                   [O(1.5, 'out-of-range'), O(-0.1, 'out-of-range'), O('a', 'unordered'), O([1], 'unordered'), O(COMPLEX, 'unordered'), O(NAN, 'out-of-range', label='nan')],
+        return Opt(name, default, [I(None), I(0), I(0.5), I(1), I(BELOW_ONE), I(TINY), I(1.0), I(0.0)],
+                   [O(1.5, 'out-of-range'), O(-0.1, 'out-of-range'), O('a', 'unordered'), O([1], 'unordered'), O(COMPLEX, 'unordered'), O(NAN, 'out-of-range', label='nan'),
+                    O(2, 'out-of-range'), O(-1, 'out-of-range'), O(ABOVE_ONE, 'out-of-range'), O(-TINY, 'out-of-range'),
+                    O(INF, 'out-of-range')],
                    kind='LinearComparer-credit-untyped')
 
     def msg(name, default):
@@ -721,9 +783,11 @@ def linear_comparer_spec():
 
 
 def unit_credit_opt(name, default):
-    return Opt(name, default, [I(0), I(1), I(0.5), I(0.0), I(1.0), I(0.75)],
+    return Opt(name, default, [I(0), I(1), I(0.5), I(0.0), I(1.0), I(0.75), I(BELOW_ONE), I(TINY)],
                [O(1.5, 'out-of-range'), O(-0.1, 'out-of-range'), O('a'), O(None, 'none'), O([0.2], 'wrong-container'),
-                O(NAN, 'out-of-range', label='nan')])
+                O(NAN, 'out-of-range', label='nan'), O(2, 'out-of-range'), O(-1, 'out-of-range'),
+                O(ABOVE_ONE, 'out-of-range'), O(-TINY, 'out-of-range'), O(INF, 'out-of-range'), O(COMPLEX, 'complex')],
+               kind='bounded-number')
 
 
 def linear_credit_spec():
